@@ -318,4 +318,389 @@ theorem derivedCalls_chain {s : Schema} {n : String} {c : List Entity} (h : IsCh
     · exact Or.inl hk
     · exact Or.inr ⟨p, hp, by rw [hpn, hax]⟩
 
+/-! ## the head instance of a chain: which objects get `_derive` -/
+
+def dAt (st : IState) (j : Nat) : Bool :=
+  match st.objs[j]? with
+  | some o => o.derive
+  | none => false
+
+def keyOf (a : SA) : String × String := (a.owner, a.name)
+
+theorem modAt_getElem (l : List Obj) (i : Nat) (f : Obj → Obj) (j : Nat) :
+    (modAt l i f)[j]? = (l[j]?).map (fun o => if j == i then f o else o) := by
+  unfold modAt
+  rw [List.getElem?_map, List.getElem?_zipIdx]
+  cases l[j]? <;> simp
+
+theorem modAt_map_sa (l : List Obj) (i : Nat) (f : Obj → Obj) (hf : ∀ o, (f o).sa = o.sa) :
+    (modAt l i f).map (·.sa) = l.map (·.sa) := by
+  apply List.ext_getElem?
+  intro j
+  rw [List.getElem?_map, List.getElem?_map, modAt_getElem]
+  cases l[j]? with
+  | none => rfl
+  | some o => simp only [Option.map_some]; split <;> simp [hf]
+
+theorem dAt_setDerive (st : IState) (i j : Nat) :
+    dAt (setDerive st i) j = (dAt st j || (j == i && decide (j < st.objs.length))) := by
+  unfold dAt setDerive
+  simp only [modAt_getElem]
+  cases h : st.objs[j]? with
+  | none =>
+    have : ¬ j < st.objs.length := by
+      intro hl; rw [List.getElem?_eq_getElem hl] at h; cases h
+    simp [this]
+  | some o =>
+    have : j < st.objs.length :=
+      Nat.lt_of_not_le (fun hl => by rw [List.getElem?_eq_none hl] at h; cases h)
+    by_cases e : j = i
+    · subst e; simp [this]
+    · simp [e]
+
+theorem dAt_setRedef (st : IState) (i j : Nat) : dAt (setRedef st i) j = dAt st j := by
+  unfold dAt setRedef
+  simp only [modAt_getElem]
+  cases st.objs[j]? with
+  | none => rfl
+  | some o => simp only [Option.map_some]; split <;> rfl
+
+/-- the `findAttr` predicate in terms of descriptors -/
+theorem findAttr_some {st : IState} {l : List Nat} {nm cr : String} {i : Nat}
+    (h : findAttr st l nm (some cr) = some i) : i ∈ l ∧ ∃ a, saAt st i = some a ∧ a.name = nm ∧ a.owner = cr := by
+  unfold findAttr at h
+  refine ⟨List.mem_of_find?_eq_some h, ?_⟩
+  have hp := List.find?_some h
+  cases hs : saAt st i with
+  | none => rw [hs] at hp; simp at hp
+  | some a =>
+    rw [hs] at hp
+    simp only [Bool.and_eq_true, beq_iff_eq] at hp
+    exact ⟨a, rfl, hp.1, hp.2.symm⟩
+
+theorem findAttr_none {st : IState} {l : List Nat} {nm cr : String}
+    (h : findAttr st l nm (some cr) = none) : ∀ j ∈ l, ∀ a, saAt st j = some a → ¬ (a.name = nm ∧ a.owner = cr) := by
+  unfold findAttr at h
+  rw [List.find?_eq_none] at h
+  intro j hj a ha ⟨h1, h2⟩
+  have := h j hj
+  rw [ha] at this
+  simp [h1, h2] at this
+
+theorem saAt_lt {st : IState} {j : Nat} {a : SA} (h : saAt st j = some a) : j < st.objs.length := by
+  unfold saAt at h
+  exact Nat.lt_of_not_le (fun hl => by rw [List.getElem?_eq_none hl] at h; cases h)
+
+theorem key_unique {st : IState} (hk : (st.objs.map (fun o => keyOf o.sa)).Nodup) {i j : Nat} {a b : SA}
+    (hi : saAt st i = some a) (hj : saAt st j = some b) (h : keyOf a = keyOf b) : i = j := by
+  have li := saAt_lt hi
+  have lj := saAt_lt hj
+  unfold saAt at hi hj
+  rw [List.getElem?_eq_getElem li] at hi
+  rw [List.getElem?_eq_getElem lj] at hj
+  simp only [Option.map_some, Option.some.injEq] at hi hj
+  have h1 : (st.objs.map (fun o => keyOf o.sa))[i]'(by simpa using li) = keyOf a := by simp [hi]
+  have h2 : (st.objs.map (fun o => keyOf o.sa))[j]'(by simpa using lj) = keyOf b := by simp [hj]
+  exact (List.getElem_inj hk).mp (by rw [h1, h2, h])
+
+/-- `MakeDerived` calls executed on the head: an object is derived afterwards iff it was, or one of the calls names it -/
+theorem applyDerived_head (calls : List (String × String)) (st : IState)
+    (hall : ∀ j, j ∈ st.head ↔ j < st.objs.length)
+    (hk : (st.objs.map (fun o => keyOf o.sa)).Nodup) :
+    let st' := applyDerived st st.head calls
+    st'.head = st.head ∧ st'.objs.map (·.sa) = st.objs.map (·.sa) ∧
+    ∀ j a, saAt st j = some a → (dAt st' j = true ↔ dAt st j = true ∨ (a.name, a.owner) ∈ calls) := by
+  induction calls generalizing st with
+  | nil => exact ⟨rfl, rfl, fun j a _ => by simp [applyDerived]⟩
+  | cons c cs ih =>
+    obtain ⟨x, cr⟩ := c
+    simp only [applyDerived, List.foldl_cons]
+    cases hf : findAttr st st.head x (some cr) with
+    | none =>
+      have := ih st hall hk
+      simp only [applyDerived] at this
+      obtain ⟨t1, t2, t3⟩ := this
+      refine ⟨t1, t2, fun j a ha => ?_⟩
+      rw [t3 j a ha]
+      have hno := findAttr_none hf j ((hall j).mpr (saAt_lt ha)) a ha
+      constructor
+      · rintro (h | h)
+        · exact Or.inl h
+        · exact Or.inr (List.mem_cons_of_mem _ h)
+      · rintro (h | h)
+        · exact Or.inl h
+        · rcases List.mem_cons.mp h with e | h
+          · simp only [Prod.mk.injEq] at e; exact absurd e hno
+          · exact Or.inr h
+    | some i =>
+      obtain ⟨hi, a0, ha0, hn0, ho0⟩ := findAttr_some hf
+      have hsa : ∀ j, saAt (setDerive st i) j = saAt st j := saAt_setDerive st i
+      have hall' : ∀ j, j ∈ (setDerive st i).head ↔ j < (setDerive st i).objs.length := by
+        intro j; simp only [setDerive, modAt_length]; exact hall j
+      have hmap : (setDerive st i).objs.map (·.sa) = st.objs.map (·.sa) := by
+        simp only [setDerive]; exact modAt_map_sa _ _ _ (fun _ => rfl)
+      have hk' : ((setDerive st i).objs.map (fun o => keyOf o.sa)).Nodup := by
+        have : (setDerive st i).objs.map (fun o => keyOf o.sa) = ((setDerive st i).objs.map (·.sa)).map keyOf := by
+          simp [List.map_map, Function.comp_def]
+        rw [this, hmap]; simpa [List.map_map, Function.comp_def] using hk
+      have := ih (setDerive st i) hall' hk'
+      simp only [applyDerived] at this
+      obtain ⟨t1, t2, t3⟩ := this
+      have hhead : (setDerive st i).head = st.head := rfl
+      rw [hhead] at t1
+      refine ⟨by rw [← hhead]; exact t1, t2.trans hmap, fun j a ha => ?_⟩
+      have := t3 j a (by rw [hsa]; exact ha)
+      rw [hhead] at this
+      rw [this, dAt_setDerive]
+      have hlt := saAt_lt ha
+      simp only [Bool.or_eq_true, Bool.and_eq_true, beq_iff_eq, decide_eq_true_eq, hlt, and_true]
+      constructor
+      · rintro ((h | h) | h)
+        · exact Or.inl h
+        · subst h
+          rw [ha0] at ha; cases ha
+          exact Or.inr (by simp [hn0, ho0])
+        · exact Or.inr (List.mem_cons_of_mem _ h)
+      · rintro (h | h)
+        · exact Or.inl (Or.inl h)
+        · rcases List.mem_cons.mp h with e | h
+          · simp only [Prod.mk.injEq] at e
+            have : j = i := key_unique hk ha ha0 (by simp [keyOf, e.1, e.2, hn0, ho0])
+            exact Or.inl (Or.inr this)
+          · exact Or.inr h
+
+theorem nodup_of_map {α β : Type} (f : α → β) {l : List α} (h : (l.map f).Nodup) : l.Nodup :=
+  List.Pairwise.of_map f (fun _ _ hne e => hne (congrArg f e)) h
+
+/-! ### the own-attribute loop on the head -/
+
+structure HeadStep (st st' : IState) (added : List SA) : Prop where
+  hall : ∀ j, j ∈ st'.head ↔ j < st'.objs.length
+  sas : st'.objs.map (·.sa) = st.objs.map (·.sa) ++ added
+  der : ∀ j, dAt st' j = dAt st j
+
+theorem saAt_mem {st : IState} {j : Nat} {a : SA} (h : saAt st j = some a) : a ∈ st.objs.map (·.sa) := by
+  have hl := saAt_lt h
+  unfold saAt at h
+  rw [List.getElem?_eq_getElem hl] at h
+  simp only [Option.map_some, Option.some.injEq] at h
+  exact List.mem_map.mpr ⟨st.objs[j], List.getElem_mem hl, h⟩
+
+theorem ownStep_head (e : Entity) (st : IState) (a : Attr)
+    (hall : ∀ j, j ∈ st.head ↔ j < st.objs.length)
+    (hfresh : ({ owner := e.name, name := dictAttrName a, kind := attrDKind a } : SA) ∉ st.objs.map (·.sa)) :
+    (ownStep e (st, none) a).2 = none ∧
+    HeadStep st (ownStep e (st, none) a).1 [{ owner := e.name, name := dictAttrName a, kind := attrDKind a }] := by
+  let sa : SA := { owner := e.name, name := dictAttrName a, kind := attrDKind a }
+  let st1 : IState := { st with objs := st.objs ++ [{ sa := sa }] }
+  have hsa1 : ∀ j, j < st.objs.length → saAt st1 j = saAt st j := by
+    intro j hj; simp only [saAt, st1]; rw [List.getElem?_append_left hj]
+  have hid : saAt st1 st.objs.length = some sa := by simp [saAt, st1]
+  have hpush : pushId st1 st.head st.objs.length = st.head ++ [st.objs.length] := by
+    unfold pushId
+    have : st.head.any (fun j => saAt st1 j == saAt st1 st.objs.length) = false := by
+      rw [List.any_eq_false]
+      intro j hj
+      have hlt := (hall j).mp hj
+      rw [hsa1 j hlt, hid]
+      cases hs : saAt st j with
+      | none => simp
+      | some b =>
+        have hb := saAt_mem hs
+        have : b ≠ sa := fun e2 => hfresh (by have hb2 := hb; rwa [e2] at hb2)
+        simp [this]
+    simp only [this, Bool.false_eq_true, ↓reduceIte]
+  let st2 : IState := { st1 with head := st.head ++ [st.objs.length] }
+  have hall2 : ∀ j, j ∈ st2.head ↔ j < st2.objs.length := by
+    intro j
+    show j ∈ st.head ++ [st.objs.length] ↔ j < (st.objs ++ [({ sa := sa } : Obj)]).length
+    simp only [List.mem_append, List.mem_singleton, List.length_append, List.length_cons, List.length_nil, hall j]
+    omega
+  have hsas2 : st2.objs.map (·.sa) = st.objs.map (·.sa) ++ [sa] := by simp [st2, st1]
+  have hder2 : ∀ j, dAt st2 j = dAt st j := by
+    intro j
+    show (match (st.objs ++ [({ sa := sa } : Obj)])[j]? with | some o => o.derive | none => false) = dAt st j
+    unfold dAt
+    by_cases hj : j < st.objs.length
+    · rw [List.getElem?_append_left hj]
+    · rw [List.getElem?_append_right (by omega)]
+      rw [List.getElem?_eq_none (by omega : st.objs.length ≤ j)]
+      by_cases hz : j - st.objs.length = 0
+      · simp [hz]
+      · rw [List.getElem?_eq_none (by simp; omega)]
+  have base : HeadStep st st2 [sa] := ⟨hall2, hsas2, hder2⟩
+  have hres : (ownStep e (st, none) a) =
+      ((if a.redecl.isSome then
+          (match findAttr st2 st2.head a.name none with | some j => setRedef st2 j | none => st2) else st2), none) := by
+    unfold ownStep
+    simp only [IState.newObj, Option.map_none]
+    have hp := hpush
+    simp only [st1, sa] at hp
+    simp only [hp]
+    rfl
+  rw [hres]
+  refine ⟨rfl, ?_⟩
+  by_cases hr : a.redecl.isSome = true
+  · simp only [hr, ↓reduceIte]
+    cases findAttr st2 st2.head a.name none with
+    | none => exact base
+    | some j =>
+      exact ⟨by intro k; simp only [setRedef, modAt_length]; exact hall2 k,
+             by simp only [setRedef]; rw [modAt_map_sa st2.objs j (fun o => { o with redef := true }) (fun _ => rfl)]; exact hsas2,
+             fun k => by rw [dAt_setRedef]; exact hder2 k⟩
+  · simp only [hr]
+    exact base
+
+theorem ownLoop_head (e : Entity) (st : IState)
+    (hall : ∀ j, j ∈ st.head ↔ j < st.objs.length)
+    (hnd : (st.objs.map (·.sa) ++ ownSAs e).Nodup) :
+    HeadStep st (ownLoop e st none).1 (ownSAs e) := by
+  unfold ownLoop ownSAs at *
+  generalize e.attrs.filter (fun a => a.kind == .explicit) = l at hnd
+  induction l generalizing st with
+  | nil => exact ⟨hall, by simp, fun _ => rfl⟩
+  | cons a as ih =>
+    simp only [List.foldl_cons, List.map_cons] at hnd ⊢
+    have hfresh : ({ owner := e.name, name := dictAttrName a, kind := attrDKind a } : SA) ∉ st.objs.map (·.sa) := by
+      intro hm
+      rw [List.nodup_append] at hnd
+      exact hnd.2.2 _ hm _ (by simp) rfl
+    obtain ⟨h2, hs⟩ := ownStep_head e st a hall hfresh
+    have hpair : ownStep e (st, none) a = ((ownStep e (st, none) a).1, none) := Prod.ext rfl h2
+    rw [hpair]
+    have hnd' : ((ownStep e (st, none) a).1.objs.map (·.sa) ++
+        as.map (fun a => ({ owner := e.name, name := dictAttrName a, kind := attrDKind a } : SA))).Nodup := by
+      rw [hs.sas]; simpa [List.append_assoc] using hnd
+    have := ih (ownStep e (st, none) a).1 hs.hall hnd'
+    exact ⟨this.hall, by rw [this.sas, hs.sas]; simp, fun j => by rw [this.der, hs.der]⟩
+
+/-! ### the chain invariant -/
+
+theorem derivedCall_mono {xs ys : List (String × Attr)} {x cr : String} (h : DerivedCall xs x cr) :
+    DerivedCall (xs ++ ys) x cr := by
+  obtain ⟨pre, a, post, e, ha, hpre, hk⟩ := h
+  refine ⟨pre, a, post ++ ys, by rw [e]; simp, ha, hpre, ?_⟩
+  rcases hk with hk | ⟨p, hp, hx⟩
+  · exact Or.inl hk
+  · exact Or.inr ⟨p, List.mem_append.mpr (Or.inl hp), hx⟩
+
+/-- descriptors along the chain are told apart by (owner, registered name) -/
+def KeysNodup (c : List Entity) : Prop := ((c.flatMap ownSAs).map keyOf).Nodup
+
+structure ChainState (c : List Entity) (st : IState) : Prop where
+  hall : ∀ j, j ∈ st.head ↔ j < st.objs.length
+  sas : st.objs.map (·.sa) = c.flatMap ownSAs
+  der : ∀ j a, saAt st j = some a → (dAt st j = true ↔ DerivedCall (flatAttrs c) a.name a.owner)
+
+theorem saAt_of_map {st st' : IState} {l : List SA} (h : st'.objs.map (·.sa) = st.objs.map (·.sa) ++ l) (j : Nat)
+    (hj : j < st.objs.length) : saAt st' j = saAt st j := by
+  have h1 : saAt st' j = (st'.objs.map (·.sa))[j]? := by simp [saAt]
+  have h2 : saAt st j = (st.objs.map (·.sa))[j]? := by simp [saAt]
+  rw [h1, h2, h, List.getElem?_append_left (by simpa using hj)]
+
+theorem flatAttrs_append (c : List Entity) (e : Entity) :
+    flatAttrs (c ++ [e]) = flatAttrs c ++ e.attrs.map (fun a => (e.name, a)) := by
+  simp [flatAttrs]
+
+theorem chain_state {s : Schema} {n : String} {c : List Entity} (h : IsChain s n c) :
+    ∀ f, c.length ≤ f → c.length ≤ fuelOf s → KeysNodup c → ChainState c (ctorNF s f n {}) := by
+  induction h with
+  | root n e hE hs =>
+    intro f hf hfu hk
+    cases f with
+    | zero => simp at hf
+    | succ f =>
+      rw [ctorNF_succ, hE]
+      simp only [hs, List.tail_nil, List.foldl_nil]
+      have hall0 : ∀ j, j ∈ ({} : IState).head ↔ j < ({} : IState).objs.length := by intro j; simp
+      have hsas : (ownSAs e).Nodup := by
+        have : KeysNodup [e] := hk
+        simp only [KeysNodup, List.flatMap_cons, List.flatMap_nil, List.append_nil] at this
+        exact nodup_of_map _ this
+      have hl := ownLoop_head e {} hall0 (by simpa using hsas)
+      have hk' : ((ownLoop e {} none).1.objs.map (fun o => keyOf o.sa)).Nodup := by
+        have : (ownLoop e {} none).1.objs.map (fun o => keyOf o.sa) = ((ownLoop e {} none).1.objs.map (·.sa)).map keyOf := by
+          simp [List.map_map, Function.comp_def]
+        rw [this, hl.sas]; simpa [KeysNodup] using hk
+      obtain ⟨t1, t2, t3⟩ := applyDerived_head (derivedCalls s n) _ hl.hall hk'
+      refine ⟨?_, ?_, ?_⟩
+      · intro j
+        rw [t1]
+        have : (applyDerived (ownLoop e {} none).1 (ownLoop e {} none).1.head (derivedCalls s n)).objs.length =
+            (ownLoop e {} none).1.objs.length := by
+          have := congrArg List.length t2; simpa using this
+        rw [this]; exact hl.hall j
+      · rw [t2, hl.sas]; simp
+      · intro j a ha
+        have ha' : saAt (ownLoop e {} none).1 j = some a := by
+          have : saAt (applyDerived (ownLoop e {} none).1 (ownLoop e {} none).1.head (derivedCalls s n)) j =
+              saAt (ownLoop e {} none).1 j := by
+            simp only [saAt]
+            have := congrArg (fun l => l[j]?) t2
+            simpa using this
+          rw [← this]; exact ha
+        rw [t3 j a ha', hl.der]
+        have hd0 : dAt ({} : IState) j = false := by simp [dAt]
+        rw [hd0]
+        simp only [Bool.false_eq_true, false_or]
+        exact derivedCalls_chain (IsChain.root n e hE hs) hfu a.name a.owner
+  | step n p e c hE hs hc ih =>
+    intro f hf hfu hk
+    cases f with
+    | zero => simp at hf
+    | succ f =>
+      have hkc : KeysNodup c := by
+        unfold KeysNodup at hk ⊢
+        simp only [List.flatMap_append, List.map_append] at hk
+        exact (List.nodup_append.mp hk).1
+      have hcl : c.length ≤ f := by simp at hf; omega
+      have hcu : c.length ≤ fuelOf s := by simp at hfu; omega
+      have st1 := ih f hcl hcu hkc
+      rw [ctorNF_succ, hE]
+      simp only [hs, List.tail_cons, List.foldl_nil]
+      generalize hst : ctorNF s f p {} = st at st1
+      have hnd : (st.objs.map (·.sa) ++ ownSAs e).Nodup := by
+        rw [st1.sas]
+        have : ((c ++ [e]).flatMap ownSAs).Nodup := nodup_of_map _ hk
+        simpa using this
+      have hl := ownLoop_head e st st1.hall hnd
+      have hk' : ((ownLoop e st none).1.objs.map (fun o => keyOf o.sa)).Nodup := by
+        have : (ownLoop e st none).1.objs.map (fun o => keyOf o.sa) = ((ownLoop e st none).1.objs.map (·.sa)).map keyOf := by
+          simp [List.map_map, Function.comp_def]
+        rw [this, hl.sas, st1.sas]; simpa [KeysNodup] using hk
+      obtain ⟨t1, t2, t3⟩ := applyDerived_head (derivedCalls s n) _ hl.hall hk'
+      have hchain : IsChain s n (c ++ [e]) := IsChain.step n p e c hE hs hc
+      refine ⟨?_, ?_, ?_⟩
+      · intro j
+        rw [t1]
+        have : (applyDerived (ownLoop e st none).1 (ownLoop e st none).1.head (derivedCalls s n)).objs.length =
+            (ownLoop e st none).1.objs.length := by
+          have := congrArg List.length t2; simpa using this
+        rw [this]; exact hl.hall j
+      · rw [t2, hl.sas, st1.sas]; simp
+      · intro j a ha
+        have ha' : saAt (ownLoop e st none).1 j = some a := by
+          have : saAt (applyDerived (ownLoop e st none).1 (ownLoop e st none).1.head (derivedCalls s n)) j =
+              saAt (ownLoop e st none).1 j := by
+            simp only [saAt]
+            have := congrArg (fun l => l[j]?) t2
+            simpa using this
+          rw [← this]; exact ha
+        rw [t3 j a ha', hl.der, derivedCalls_chain hchain hfu a.name a.owner]
+        constructor
+        · rintro (hd | hd)
+          · -- an object that was derived before is an object of the shorter chain
+            have hj : j < st.objs.length := by
+              unfold dAt at hd
+              cases ho : st.objs[j]? with
+              | none => rw [ho] at hd; simp at hd
+              | some o => exact Nat.lt_of_not_le (fun hl' => by rw [List.getElem?_eq_none hl'] at ho; cases ho)
+            have hsame := saAt_of_map hl.sas j hj
+            rw [ha'] at hsame
+            have := (st1.der j a hsame.symm).mp hd
+            rw [flatAttrs_append]
+            exact derivedCall_mono this
+          · exact hd
+        · intro hd; exact Or.inr hd
+
 end StepModel.GenCxx
